@@ -11,6 +11,7 @@ mod graphops;
 mod protoops;
 mod lockops;
 mod dumpops;
+mod zkeyops;
 
 pub struct Ctx {
     pub hash: hashops::HashCtx,
@@ -34,6 +35,9 @@ impl Ctx {
             return r;
         }
         if let Some(r) = self.proto.exec(w) {
+            return r;
+        }
+        if let Some(r) = zkeyops::exec(w) {
             return r;
         }
         if let Some(r) = graphops::exec(w) {
